@@ -47,3 +47,7 @@ int __wrap_epoll_wait(int epfd, struct epoll_event *ev, int maxev, int timeout)
 	vnow += timeout ? (uint64_t)timeout * 1000000ULL : vtick;
 	return 0;
 }
+
+/* libqb naps for 100 ms on an unexpected poll event: keep that virtual */
+int __wrap_usleep(unsigned usec);
+int __wrap_usleep(unsigned usec) { vnow += (uint64_t)usec * 1000ULL; return 0; }
